@@ -1743,6 +1743,7 @@ pub fn corr(run: &mut Run) {
     stream_families(run);
     stream_slices(run);
     stream_graph_api(run);
+    run.rule.push_str(" R: programs that continue after a REFUSED node (size budgets): the following nodes must get the type a fresh context infers, ill-fitting operations must be rejected, the value must have the inferred type.");
     stream_after_refusal(run);
 }
 
